@@ -389,3 +389,56 @@ func init() {
 	register(&Scenario{Prop: "C17", Name: "c17/roundrobin-2callers-3targets", Quick: []Bound{{1, 0}, {2, 0}}, Thorough: []Bound{{3, 0}}, Body: c17Concurrent(3, 2), MaxSteps: 100000})
 	register(&Scenario{Prop: "C17", Name: "c17/roundrobin-3callers-2targets", Quick: []Bound{{1, 0}, {2, 0}}, Thorough: []Bound{{3, 0}}, Body: c17Concurrent(2, 3), MaxSteps: 100000})
 }
+
+// map iteration order is unspecified: with one configured target that stays unreachable the
+// client re-examines its target table on every detector tick; whatever order that walk takes,
+// the rotation over the stable live targets goes on undisturbed.  The iteration order of every
+// instrumented map range is an environment choice here (fault bound = number of walks that
+// deviate from the canonical order).
+func c17MapOrder(x *X) {
+	vs.MapOrderChoices = true
+	defer func() { vs.MapOrderChoices = false }()
+	n := 3
+	addrs := []string{"a", "b", "c"}
+	s := newCliSys(x, rpc.RoundRobinScheduling, "c", "x", "b", "a")
+	for _, a := range addrs {
+		s.rt.up[a] = true
+	}
+	s.rt.up["x"] = false
+	s.tick(2)
+	startShift := x.Choose(n)
+	for i := 0; i < startShift; i++ {
+		s.c.Call("X.Y", nil, nil)
+	}
+	from := len(s.rt.routed)
+	for i := 0; i < 2*n+1; i++ {
+		if err := clientCall(s.c, cfCall); err != nil {
+			x.Fail("C17/call-failed", "call failed: %v", err)
+		}
+		if i%2 == 1 {
+			s.tick(1)
+		}
+	}
+	var seq []string
+	for _, r := range s.rt.userRoutes(from) {
+		seq = append(seq, r.addr)
+		if !member(addrs, r.addr) {
+			x.Fail("C17/not-a-live-target", "round robin routed to %q which is not a live target", r.addr)
+		}
+	}
+	for i := 0; i+n <= len(seq); i++ {
+		w := append([]string{}, seq[i:i+n]...)
+		sort.Strings(w)
+		for j := 1; j < len(w); j++ {
+			if w[j] == w[j-1] {
+				x.Fail("C17/roundrobin-repeats", "round robin over %d stable live targets (one more configured target is unreachable) sent %d consecutive calls to %v (full sequence %v)", n, n, seq[i:i+n], seq)
+			}
+		}
+	}
+	x.Outcome("shift=%d %v", startShift, seq)
+	s.close()
+}
+
+func init() {
+	register(&Scenario{Prop: "C17", Name: "c17/roundrobin-map-order", Quick: []Bound{{0, 1}, {0, 2}}, Thorough: []Bound{{1, 2}, {0, 3}}, Body: c17MapOrder, MaxSteps: 100000})
+}
